@@ -306,6 +306,14 @@ def s_pow(a, b):
 rpow = z3.Function('rpow', z3.RealSort(), z3.RealSort(), z3.RealSort())
 
 
+def rpow_axioms():
+    """A3: real power for positive base:  a^b > 0,  1/a^b = a^(-b),  (a^b)^c = a^(b*c),  a^0 = 1"""
+    a, b, c = z3.Reals('pw!a pw!b pw!c')
+    return [z3.ForAll([a, b], z3.Implies(a > 0, z3.And(rpow(a, b) > 0, 1 / rpow(a, b) == rpow(a, -b))), patterns=[rpow(a, b)]),
+            z3.ForAll([a, b, c], z3.Implies(a > 0, rpow(rpow(a, b), c) == rpow(a, b * c)), patterns=[rpow(rpow(a, b), c)]),
+            z3.ForAll([a], z3.Implies(a > 0, rpow(a, 0) == 1), patterns=[rpow(a, 0)])]
+
+
 def _is_strlike(a):
     return isinstance(a, str) or (is_z3(a) and a.sort() == Str)
 
@@ -728,10 +736,11 @@ def _time_bin(name, a, b):
 
 
 def _td_scale(d, k):
-    k = lift(k)
-    if z3.is_int(k):
-        return lift(d) * k
-    raise Unsupported('Timedelta * real')
+    """Timedelta * number: durations become real-valued when scaled by a real"""
+    k, d = lift(k), lift(d)
+    if z3.is_int(k) and z3.is_int(d):
+        return d * k
+    return to_real(d) * to_real(k)
 
 
 def _time_cmp(name, a, b):
@@ -1110,6 +1119,9 @@ def arr_slice(a, lo, hi):
     if chi is not None and chi < 0:
         hi = binop('Add', n, chi)
     ln = binop('Sub', hi, lo)
+    if (clo is not None and clo < 0) or (chi is not None and chi < 0):
+        # a negative bound can undershoot on short arrays: numpy then yields an empty slice
+        ln = ite(cmpop('GtE', ln, 0), ln, 0)
     ln = simp(ln) if is_z3(ln) else ln
     cl = concrete_int(ln)
     if cl is not None:
